@@ -330,7 +330,7 @@ Proof.
   destruct Hh as [HNP [HML [HTL [HFL [HTA [HSH [HMG [HTD HPE]]]]]]]].
   destruct it as [r e | | c e | | | | | c e | e | ]; cbn [step] in Hstep.
   - (* IRung *)
-    inversion Hstep; subst. split; [constructor|]. intros Hn.
+    injection Hstep as E1 E2 E3; subst. split; [constructor|]. intros Hn.
     destruct (cond r m s') eqn:Ec; [discriminate|].
     destruct r; cbn [learn]; unfold holds;
       cbn [fNumProp fMergeLen fTransLen fFaceLen fTanLen fNorm fShape fMergeGe fTriDone];
@@ -345,38 +345,38 @@ Proof.
       apply negb_false_iff, Z.eqb_eq in E1. apply negb_false_iff, Z.eqb_eq in E2.
       apply negb_false_iff, Z.eqb_eq in E3. apply negb_false_iff in E4. tauto.
   - (* IComputeCounts *)
-    inversion Hstep; subst. cbn [needs] in Hneed. specialize (HNP Hneed).
-    split; [constructor; [cbn; lia | constructor]|]. intros _. unfold holds; cbn [learn]. tauto.
+    injection Hstep as E1 E2 E3; subst. cbn [needs] in Hneed. specialize (HNP Hneed).
+    split; [constructor; [cbn [in_bounds]; lia | constructor]|]. intros _. unfold holds; cbn [learn]. tauto.
   - (* IMergeLoop *)
     cbn [needs] in Hneed. apply andb_true_iff in Hneed. destruct Hneed as [Hf Hc].
     destruct c; [|discriminate]. pose proof (HML Hf) as HML'.
     destruct (zlen (mergeFrom m) =? 0).
-    + inversion Hstep; subst. split; [constructor|]. intros _. unfold holds; cbn [learn]; cbn [fNumProp fMergeLen fTransLen fFaceLen fTanLen fNorm fShape fMergeGe fTriDone ri p2v p2vOn kept].
+    + injection Hstep as E1 E2 E3; subst. split; [constructor|]. intros _. unfold holds; cbn [learn]; cbn [fNumProp fMergeLen fTransLen fFaceLen fTanLen fNorm fShape fMergeGe fTriDone ri p2v p2vOn kept].
       splits; try assumption; try (intros; discriminate). intros _. cbn.
       destruct (fMergeGe f) eqn:E; [apply HMG; reflexivity|].
       rewrite (HPE eq_refl). constructor.
     + destruct (merge_loop CGe (numVert m) (zlen (mergeTo m)) (mergeTo m) 0 (mergeFrom m) []) as [[fired acc] a0] eqn:Em.
-      inversion Hstep; subst.
+      injection Hstep as E1 E2 E3; subst.
       apply merge_loop_ok in Em; [| lia | lia | constructor].
       destruct Em as [Ha Hacc]. split; [exact Ha|]. intros _.
       unfold holds; cbn [learn]; cbn [fNumProp fMergeLen fTransLen fFaceLen fTanLen fNorm fShape fMergeGe fTriDone ri p2v p2vOn kept]. splits; try assumption; try (intros; discriminate). intros _. exact Hacc.
   - (* ICopyVerts *)
-    inversion Hstep; subst. cbn [needs] in Hneed. specialize (HNP Hneed).
+    injection Hstep as E1 E2 E3; subst. cbn [needs] in Hneed. specialize (HNP Hneed).
     split.
     + apply Forall_flat_map_intro. intros i Hi. apply in_zrange in Hi.
       apply vert_accesses_ok; assumption.
     + intros _. unfold holds; cbn [learn]. tauto.
   - (* ICopyTangents *)
-    inversion Hstep; subst. destruct Hwf as [_ [_ [_ [_ [_ Htan]]]]]. split.
-    + constructor; [|constructor; [|constructor]]; cbn; intros Hlt.
+    injection Hstep as E1 E2 E3; subst. destruct Hwf as [_ [_ [_ [_ [_ Htan]]]]]. split.
+    + constructor; [|constructor; [|constructor]]; cbn [in_bounds]; intros Hlt.
       * split; [lia|]. apply Z.mul_div_le. lia.
       * lia.
     + intros _. unfold holds; cbn [learn]. tauto.
   - (* INormaliseRuns *)
-    inversion Hstep; subst. split; [constructor|]. intros _.
+    injection Hstep as E1 E2 E3; subst. split; [constructor|]. intros _.
     unfold holds; cbn [learn]; cbn [fNumProp fMergeLen fTransLen fFaceLen fTanLen fNorm fShape fMergeGe fTriDone ri p2v p2vOn kept]. splits; try assumption; intros; discriminate.
   - (* IRunLoop *)
-    inversion Hstep; subst. cbn [needs] in Hneed.
+    injection Hstep as E1 E2 E3; subst. cbn [needs] in Hneed.
     apply andb_true_iff in Hneed. destruct Hneed as [Hneed Ht].
     apply andb_true_iff in Hneed. destruct Hneed as [Hsh Hfa].
     destruct (HSH Hsh) as [H1 [H2 [H3 H4]]]. split.
@@ -387,7 +387,7 @@ Proof.
     cbn [needs] in Hneed. apply andb_true_iff in Hneed. destruct Hneed as [Hmg Hc].
     destruct c; [|discriminate]. pose proof (HMG Hmg) as HMG'.
     destruct (tri_loop CGe m s 0 (Z.to_nat (numTri m)) []) as [[fired k] a0] eqn:Et.
-    inversion Hstep; subst.
+    injection Hstep as E1 E2 E3; subst.
     destruct (numTriI_small m Hs) as [Eq Hr]. pose proof (numTri_small m Hs) as Ent.
     apply tri_loop_ok in Et; [| exact HMG' | lia | rewrite Ent; lia | | constructor].
     + destruct Et as [Ha Hk]. split; [exact Ha|]. intros _.
@@ -395,9 +395,9 @@ Proof.
     + rewrite Eq. pose proof (zlen_nonneg _ (triVerts m)).
       rewrite Z.mul_comm. apply Z.mul_div_le. lia.
   - (* ICreateHalfedges *)
-    inversion Hstep; subst. split; [constructor|]. intros _. unfold holds; cbn [learn]. tauto.
+    injection Hstep as E1 E2 E3; subst. split; [constructor|]. intros _. unfold holds; cbn [learn]. tauto.
   - (* IPost *)
-    inversion Hstep; subst. cbn [needs] in Hneed.
+    injection Hstep as E1 E2 E3; subst. cbn [needs] in Hneed.
     apply andb_true_iff in Hneed. destruct Hneed as [Hneed Hnp].
     apply andb_true_iff in Hneed. destruct Hneed as [Hta Htd].
     specialize (HNP Hnp). specialize (HTA Hta). specialize (HTD Htd). split.
@@ -408,7 +408,7 @@ Proof.
         pose proof (Forall_combine_ok m _ _ Hp Hv) as Hc. rewrite Forall_forall in Hc.
         destruct (Hc pv Hpv). apply corner_accesses_ok; assumption.
       * destruct (tanLen m / 4 =? 0) eqn:E4; [constructor|]. apply Z.eqb_neq in E4.
-        constructor; [|constructor]. cbn. intros Hlt. split; [lia|].
+        constructor; [|constructor]. cbn [in_bounds]. intros Hlt. split; [lia|].
         destruct (numTriI_small m Hs) as [Eq _].
         destruct HTA as [HTA | HTA].
         -- rewrite HTA in E4. cbn in E4. congruence.
